@@ -152,6 +152,75 @@ def main():
             fail("mixin_added_after_first_use_shows_up", got=behaviour(late))
     except Exception:
         pass
+    # 6. nothing in use yet: a change made to any ancestor (after its descendants were created and registered their
+    #    own methods) is seen by every descendant on first use, whichever node is used first
+    class D: ...
+
+    def fd(x: D):
+        return "D"
+
+    for depth in (1, 2, 3):
+        for change_at in range(depth):
+            for first in range(depth + 1):
+                chain = [base()]
+                for i in range(depth):
+                    def own(x: int):
+                        return "own"
+                    chain.append(chain[-1].variant(own))
+                chain[change_at].register(fd)
+                order = [first] + [i for i in range(depth + 1) if i != first]
+                for i in order:
+                    n += 1
+                    want = "D" if i >= change_at else "obj"
+                    got = out(chain[i], D())
+                    if got != want:
+                        fail("change_before_first_use_reaches_every_descendant", depth=depth, change_at=change_at, used_first=first, node=i, got=got, want=want)
+    # 7. a child overrides a signature it only inherits: the child's own table gets the new method only, so later
+    #    changes of the parent to other signatures stay visible and call_next in the child's method reaches the parent's
+    from ovld import call_next
+
+    for linkback in (False, True):
+        p = base()
+        ch = p.copy(linkback=linkback)
+
+        def fa3(x: A):
+            return "A3>" + call_next(x)
+
+        ch.register(fa3)
+        n += 1
+        got = out(ch, A())
+        if got != "A3>obj":
+            # the parent's fa has the identical signature: it is REPLACED in the child (C02), not kept below it
+            fail("override_of_inherited_signature_replaces_it", linkback=linkback, got=got)
+        n += 1
+        if behaviour(p) != ref:
+            fail("override_in_child_never_changes_parent", linkback=linkback, got=behaviour(p))
+    # 8. an override replaces the parent's method of identical signature whatever the parameter is called
+    def fa_renamed(n_: A):
+        return "A-renamed"
+
+    def fa_posonly(x: A, /):
+        return "A-posonly"
+
+    for variant_fn, want_a in ((fa_renamed, "A-renamed"), (fa_posonly, "A-posonly")):
+        for how in ("variant", "copy+register", "mixin", "grandchild"):
+            p = base()
+            if how == "variant":
+                v = p.variant(variant_fn)
+            elif how == "copy+register":
+                v = p.copy()
+                v.register(variant_fn)
+            elif how == "mixin":
+                m_ = Ovld(name="mixr")
+                m_.register(variant_fn)
+                v = Ovld(name="comb2", mixins=[p, m_])
+            else:
+                v = p.copy().copy()
+                v.register(variant_fn)
+            n += 1
+            got = behaviour(v)
+            if got != [want_a, want_a, want_a, "obj"]:
+                fail("override_with_a_renamed_parameter_replaces_the_parents_method", how=how, method=variant_fn.__name__, got=got)
     print(json.dumps(dict(evaluations=n, failing=list(failing.values()))))
     return 1 if failing else 0
 
